@@ -1,10 +1,8 @@
 (* The incoming path of one poll and the joint invariant: process_incoming_message, recv_loop,
    process_all_incoming_messages never panic, report only allowed errors, and keep the extended
-   invariant vs_x (VSock_PollAux.v).  The one panic site that the invariant cannot exclude is
-   calc_pipe (called when fast recovery is entered and at the end of process_all while Recovering):
-   it panics when last_sent_seq_nr, as seq_sub computes it, lies beyond the end of the table.
-   It is excluded by the hypothesis ps_for / fin_ps on the state at the start of the poll
-   (see poll_in_refuted in VSock_Poll.v for the witness that it is needed). *)
+   invariant vs_x (VSock_PollAux.v); the state of every error exit is described too.
+   (calc_pipe, the one panic site the invariant could not exclude, is total since the repair of
+   D21: its witness was found here.) *)
 From Utp Require Import Base.Prelude Wire.SeqNr Wire.SeqNr_Proofs Wire.Header Rtt.Rtte Rtt.Rtte_Proofs
   Mtu.SegSizes Rx.Rx Rx.Rx_Proofs Tx.Ring Tx.Ring_Proofs Tx.Segments Tx.Segments_Proofs
   Conn.Recovery Conn.Msg Conn.VSockRec Conn.VSock Conn.VSockRun Conn.VObs Conn.C10_Pred
@@ -49,11 +47,11 @@ Proof.
 Qed.
 
 Lemma recovery_on_ack_x r h segs ls cc now rtt :
-  seg_inv segs -> dup_ok r -> ps_for ls segs ->
+  seg_inv segs -> dup_ok r ->
   exists r' segs' cc',
     recovery_on_ack cci r h segs ls cc now rtt = Some (r', segs', cc') /\ roa_post segs segs' r'.
 Proof.
-  intros Hinv Hdup Hps. unfold recovery_on_ack. cbn [rv_phase rv_supports_sack rv_last_ack].
+  intros Hinv Hdup. unfold recovery_on_ack. cbn [rv_phase rv_supports_sack rv_last_ack].
   unfold dup_ok in Hdup.
   destruct (rv_phase r) as [rp|d|rc] eqn:Eph.
   - destruct (seq_ge _ _); eexists _, _, _; (split; [reflexivity|]); apply roa_post_same; auto;
@@ -79,7 +77,7 @@ Proof.
     { intros sup c la' Hc. destruct (Z.ltb_spec c SACK_DUP_THRESH) as [Hlt|Hge].
       - eexists _, _, _; (split; [reflexivity|]); apply roa_post_same; auto.
         unfold dup_ok; cbn [rv_phase]. lia.
-      - destruct (ps_calc_pipe ls segs (wsub16 (ss_snd_una segs) 1) rtt now Hinv Hps) as (t' & pp & rc & E).
+      - destruct (calc_pipe_some segs (wsub16 (ss_snd_una segs) 1) ls rtt now) as (t' & pp & rc & E).
         rewrite E. eexists _, _, _; (split; [reflexivity|]).
         destruct (calc_pipe_ev _ _ _ _ _ _ _ _ E) as (V1 & V2 & V3 & V4).
         unfold roa_post. split; [unfold dup_ok; cbn [rv_phase]; exact I|].
@@ -133,20 +131,17 @@ Qed.
 
 (* ------------------------------------------------------------------ the ACK part *)
 Lemma pim_ack_x ti tm p q (s1 : vsock) h :
-  vs_x ti tm p q s1 -> ps_for (v_last_sent_seq_nr s1) (v_segs s1) ->
+  vs_x ti tm p q s1 ->
   exists s2 res, pim_ack cci s1 h = Some (s2, res) /\
-    vs_x ti tm (p + ar_acked_bytes res) q s2 /\ acc_ok res /\
-    ps_for (v_last_sent_seq_nr s2) (v_segs s2) /\ in_rel s1 s2 /\
-    (forall x, ps_for x (v_segs s1) -> ps_for x (v_segs s2)).
+    vs_x ti tm (p + ar_acked_bytes res) q s2 /\ acc_ok res /\ in_rel s1 s2.
 Proof.
-  intros [Hinv [Haux Hnow]] Hps.
+  intros [Hinv [Haux Hnow]].
   destruct (inv_parts _ _ _ _ Hinv) as (I1 & I2 & I3 & I4 & (R0 & R1 & R2 & R3) & I6 & I7 & I8).
   unfold pim_ack.
   destruct (remove_up_to_ack (v_segs s1) (v_now s1) (ch_ack h) (ch_sack h)) as [segs1 res] eqn:Er.
   destruct (remove_up_to_ack_inv _ _ _ _ _ _ I2 Er) as (J1 & B1 & B2 & O1 & L1 & C1).
   pose proof (remove_up_to_ack_zero _ _ _ _ _ _ Er) as Hz.
   pose proof (remove_up_to_ack_aux q _ _ _ _ _ _ _ Er Haux) as Haux1.
-  pose proof (ps_remove _ _ _ _ _ _ _ Hps Er) as Hps1.
   (* the RTT sample *)
   assert (Hrt : exists rtte1,
             match is_recovering (v_recovery s1), ar_new_rtt res with
@@ -163,7 +158,7 @@ Proof.
   destruct (cc_on_ack cci _ (v_now s1) (ar_acked_bytes res) (roundtrip_time rtte1)) as [cc3|] eqn:Ecc;
     [|exfalso; eapply Hcc; exact Ecc].
   destruct (recovery_on_ack_x (v_recovery s1) h segs1 (v_last_sent_seq_nr s1) cc3 (v_now s1)
-              (roundtrip_time rtte1) J1 I8 Hps1) as (rec1 & segs2 & cc4 & -> & (D1 & J2 & Rm & Of & Ev & Un)).
+              (roundtrip_time rtte1) J1 I8) as (rec1 & segs2 & cc4 & -> & (D1 & J2 & Rm & Of & Ev & Un)).
   eexists _, _. split; [reflexivity|].
   destruct (delivered_ss_ok (v_ss s1) (ar_max_acked_payload res) I6) as (S1 & S2 & S3).
   pose proof (ev_length _ _ Ev) as Hlen.
@@ -178,10 +173,7 @@ Proof.
       tauto.
     - unfold sx. vsimpl. split; [eapply aux_mono; [exact S3|]; eapply aux_ev; eauto|exact Hnow]. }
   split; [unfold acc_ok; auto|].
-  split; [vsimpl; eapply ps_ev; [exact Hps1|exact Hlen|exact Un]|].
-  split.
-  { unfold in_rel, emsg_free, ss_mono. vsimpl. repeat split; auto; try lia; try tauto. }
-  vsimpl. intros x Hx. eapply ps_ev; [eapply ps_remove; [exact Hx|exact Er]|exact Hlen|exact Un].
+  unfold in_rel, emsg_free, ss_mono. vsimpl. repeat split; auto; try lia; try tauto.
 Qed.
 
 (* ------------------------------------------------------------------ ST_DATA *)
@@ -273,8 +265,7 @@ Definition msg_rel (s s' : vsock) : Prop :=
   v_opts s' = v_opts s /\ v_inbox s' = v_inbox s /\ v_inbox_closed s' = v_inbox_closed s /\
   v_emsg_limit s' = v_emsg_limit s /\ v_now s' = v_now s /\ v_restart s' = v_restart s /\
   v_last_sent_seq_nr s' = v_last_sent_seq_nr s /\ v_env_now s' = v_env_now s /\
-  ss_mono (v_ss s) (v_ss s') /\ (emsg_free s -> emsg_free s') /\
-  (fin_cand s' = None \/ fin_cand s' = fin_cand s).
+  ss_mono (v_ss s) (v_ss s') /\ (emsg_free s -> emsg_free s').
 
 Lemma msg_rel_refl s : msg_rel s s.
 Proof. unfold msg_rel, ss_mono. repeat (split; [first [reflexivity|lia]|]). auto. Qed.
@@ -283,32 +274,30 @@ Lemma tbl_msg_rel s s1 : tbl_rel s s1 -> msg_rel s s1.
 Proof.
   intros (E1&E2&E3&E4&E5&E6&E7&E8&E9&E10&E11&E12&E13&E14&E15&E16&E17&E18&Hst&Hfc).
   unfold msg_rel, ss_mono, emsg_free. rewrite E4, E14, E10. repeat (split; [first [assumption|reflexivity|lia]|]).
-  split; [auto|exact Hfc].
+  auto.
 Qed.
 
 Lemma in_msg_rel s s' : in_rel s s' -> msg_rel s s'.
 Proof.
   intros (A1&A2&A3&A4&A5&A6&A7&A8&A9&A10&A11&A12).
-  unfold msg_rel. repeat (split; [assumption|]). right. unfold fin_cand. rewrite A2, A10. reflexivity.
+  unfold msg_rel. repeat (split; [assumption|]). exact A12.
 Qed.
 
 Lemma msg_rel_trans a b c : msg_rel a b -> msg_rel b c -> msg_rel a c.
 Proof.
-  unfold msg_rel. intros (A1&A2&A3&A4&A5&A6&A7&A8&A9&A10&A11) (B1&B2&B3&B4&B5&B6&B7&B8&B9&B10&B11).
-  repeat (split; [congruence|]). split; [eapply ss_mono_trans; eauto|]. split; [auto|].
-  destruct B11 as [B11|B11]; rewrite B11; auto.
+  unfold msg_rel. intros (A1&A2&A3&A4&A5&A6&A7&A8&A9&A10) (B1&B2&B3&B4&B5&B6&B7&B8&B9&B10).
+  repeat (split; [congruence|]). split; [eapply ss_mono_trans; eauto|auto].
 Qed.
 
 Definition pim_post ti tm p q (s s' : vsock) (r : on_ack_result) : Prop :=
   vs_x ti tm (p + ar_acked_bytes r) q s' /\ acc_ok r /\ msg_rel s s' /\
-  v_state s' <> SynReceived /\
-  (forall x, ps_for x (v_segs s) -> ps_for x (v_segs s')).
+  v_state s' <> SynReceived.
 
 Lemma process_incoming_message_x ti tm p q (s : vsock) m :
-  vs_x ti tm p q s -> v_state s <> SynReceived -> ps_for (v_last_sent_seq_nr s) (v_segs s) ->
+  vs_x ti tm p q s -> v_state s <> SynReceived ->
   spx strict (process_incoming_message cci s m) (pim_post ti tm p q s) (vs_xe ti tm q).
 Proof.
-  intros Hx Hst Hps. rewrite process_incoming_message_eq.
+  intros Hx Hst. rewrite process_incoming_message_eq.
   pose proof (state_table_rel s (m_hdr m)) as Ht.
   pose proof (state_table_no_bug s (m_hdr m) Hst) as Hnb.
   pose proof (state_table_err s (m_hdr m)) as Herr.
@@ -316,24 +305,19 @@ Proof.
   - (* dropped *)
     cbn [spx]. unfold pim_post. cbn [on_ack_result_default ar_acked_bytes].
     replace (p + 0) with p by lia. split; [eapply x_tbl; eauto|].
-    split; [apply acc_ok_default|]. split; [apply tbl_msg_rel; exact Ht|]. split; [exact Hnb|].
-    destruct Ht as (_&_&E3&_). rewrite E3. auto.
+    split; [apply acc_ok_default|]. split; [apply tbl_msg_rel; exact Ht|exact Hnb].
   - (* ST_RESET *)
     destruct (Herr s1 e Hst eq_refl) as [-> _]. cbn [spx allowed]. split; [exact I|].
     eapply x_xe, x_tbl; eauto.
   - (* the common part *)
     pose proof (x_tbl _ _ _ _ _ _ Hx Ht) as Hx1.
-    assert (Hps1 : ps_for (v_last_sent_seq_nr s1) (v_segs s1)).
-    { destruct Ht as (_&_&E3&_&_&_&_&_&_&_&_&_&_&_&_&E16&_). rewrite E3, E16. exact Hps. }
     unfold pim_cont.
-    destruct (pim_ack_x ti tm p q s1 (m_hdr m) Hx1 Hps1) as (s2 & res & -> & Hx2 & Hok & Hps2 & Hr2 & Hall).
+    destruct (pim_ack_x ti tm p q s1 (m_hdr m) Hx1) as (s2 & res & -> & Hx2 & Hok & Hr2).
     assert (Hfin : forall s' r, data_post ti tm (p + ar_acked_bytes res) q s2 res s' r -> pim_post ti tm p q s s' r).
     { intros s' r (-> & A1 & A2 & A3). unfold pim_post. split; [exact A1|]. split; [exact Hok|].
       split; [eapply msg_rel_trans; [apply tbl_msg_rel; exact Ht|];
               eapply msg_rel_trans; apply in_msg_rel; eassumption|].
-      split.
-      - destruct A2 as (_ & B2 & _). destruct Hr2 as (_ & C2 & _). rewrite B2, C2. exact Hnb.
-      - intros x Hpx. rewrite A3. apply Hall. destruct Ht as (_&_&E3&_). rewrite E3. exact Hpx. }
+      destruct A2 as (_ & B2 & _). destruct Hr2 as (_ & C2 & _). rewrite B2, C2. exact Hnb. }
     cbv zeta. destruct (ch_type (m_hdr m)).
     + eapply spx_weaken; [apply pim_data_x; exact Hx2|exact Hfin|auto].
     + eapply spx_weaken; [apply pim_fin_x; exact Hx2|exact Hfin|auto].
@@ -368,14 +352,8 @@ Proof.
   - unfold sx. rewrite E5, E7. split; [eapply aux_ev; eauto|exact H3].
 Qed.
 
-(* the FIN that the channel-closed arm of the loop may send must be pipe-safe too *)
-Definition fin_ps (s : vsock) : Prop :=
-  v_inbox_closed s = true ->
-  forall c, fin_cand s = Some c -> seq_sub c (v_last_sent_seq_nr s) = 1 -> ps_for c (v_segs s).
-
 Definition rl_inv ti tm q p (s : vsock) : Prop :=
-  vs_x ti tm p q s /\ ef strict s /\ v_state s <> SynReceived /\
-  ps_for (v_last_sent_seq_nr s) (v_segs s) /\ fin_ps s.
+  vs_x ti tm p q s /\ ef strict s /\ v_state s <> SynReceived.
 
 Definition loop_rel (s s' : vsock) : Prop :=
   v_opts s' = v_opts s /\ v_inbox_closed s' = v_inbox_closed s /\ v_emsg_limit s' = v_emsg_limit s /\
@@ -401,14 +379,7 @@ Proof.
 Qed.
 
 Definition rl_post ti tm q (s s' : vsock) (res : on_ack_result * bool) : Prop :=
-  vs_x ti tm (ar_acked_bytes (fst res)) q s' /\ acc_ok (fst res) /\ ef strict s' /\
-  ps_for (v_last_sent_seq_nr s') (v_segs s') /\ loop_rel s s'.
-
-Lemma fin_cand_transition (s : vsock) f :
-  our_fin_if_unacked (v_state (transition_to_fin_wait_1 s)) = Some f -> fin_cand s = Some f.
-Proof.
-  unfold transition_to_fin_wait_1, fin_cand. destruct (v_state s) eqn:E; vsimpl; rewrite ?E; cbn [our_fin_if_unacked]; intro H; first [exact H|discriminate H].
-Qed.
+  vs_x ti tm (ar_acked_bytes (fst res)) q s' /\ acc_ok (fst res) /\ ef strict s' /\ loop_rel s s'.
 
 Lemma transition_x ti tm p q (s : vsock) :
   vs_x ti tm p q s ->
@@ -432,20 +403,17 @@ Lemma recv_loop_x ti tm q : forall fuel (s : vsock) acc,
   (length (v_inbox s) < length fuel)%nat -> acc_ok acc -> rl_inv ti tm q (ar_acked_bytes acc) s ->
   spx strict (recv_loop cci fuel s acc) (rl_post ti tm q s) (vs_xe ti tm q).
 Proof.
-  induction fuel as [|m0 fuel IH]; intros s acc Hlen Hacc (Hx & Hef & Hst & Hps & Hfp);
+  induction fuel as [|m0 fuel IH]; intros s acc Hlen Hacc (Hx & Hef & Hst);
     [cbn [length] in Hlen; lia|].
   cbn [recv_loop]. destruct (v_inbox s) as [|m rest] eqn:Ei.
   - (* the inbox is drained *)
     destruct (v_inbox_closed s) eqn:Eic.
     + destruct (transition_x _ _ _ _ _ Hx) as (Hx1 & Hs1 & Hl1 & Hsd1 & Hr1).
       set (s1 := transition_to_fin_wait_1 s) in *.
-      eapply spx_bind with (Q1 := fun s2 (_ : bool) => ctl_rel s1 s2 /\
-         (v_last_sent_seq_nr s2 = v_last_sent_seq_nr s1 \/
-          exists f, our_fin_if_unacked (v_state s1) = Some f /\ seq_sub f (v_last_sent_seq_nr s1) = 1 /\
-                    v_last_sent_seq_nr s2 = f)).
-      * eapply spx_weaken; [apply (maybe_send_fin_x strict)|auto|].
+      eapply spx_bind with (Q1 := fun s2 (_ : bool) => ctl_rel s1 s2).
+      * eapply spx_weaken; [apply (maybe_send_fin_x strict)|intros s2 b [Hc _]; exact Hc|].
         intros s2 [[[Hcore _] _] _]. eapply x_xe, x_same_core; eauto.
-      * intros s2 b [Hc Hls]. cbn [spx]. unfold rl_post. cbn [fst].
+      * intros s2 b Hc. cbn [spx]. unfold rl_post. cbn [fst].
         pose proof Hc as [[Hcore [Hfr _]] _].
         pose proof (x_same_core _ _ _ _ _ _ Hx1 Hcore) as Hx2.
         split; [eapply x_state; [exact Hx2|..]; vsimpl; try reflexivity; congruence|].
@@ -453,73 +421,42 @@ Proof.
         split.
         { unfold ef, emsg_free in *. vsimpl. intro Hs. apply Hfr. unfold emsg_free.
           rewrite Hsd1. unfold s1, transition_to_fin_wait_1. destruct (v_state s); vsimpl; apply Hef; exact Hs. }
-        split.
-        { vsimpl. destruct Hcore as (_ & _ & E3 & _). rewrite E3, Hs1.
-          destruct Hls as [->|(f & Hf1 & Hf2 & ->)]; [rewrite Hl1; exact Hps|].
-          apply Hfp; [exact Eic|apply fin_cand_transition; exact Hf1|rewrite <- Hl1; exact Hf2]. }
         eapply loop_rel_trans; [exact Hr1|]. eapply loop_rel_trans; [apply ctl_loop_rel; exact Hc|].
         unfold loop_rel, ss_mono; vsimpl; repeat (split; [reflexivity|]); lia.
     + cbn [spx]. unfold rl_post. cbn [fst]. split; [exact Hx|]. split; [exact Hacc|]. split; [exact Hef|].
-      split; [exact Hps|]. exact (loop_rel_refl s).
+      exact (loop_rel_refl s).
   - (* one more message *)
     assert (Hx0 : vs_x ti tm (ar_acked_bytes acc) q (set_inbox s rest)) by exact Hx.
-    eapply spx_bind; [apply process_incoming_message_x; [exact Hx0|exact Hst|exact Hps]|].
-    intros s1 r (Hx1 & Hok1 & Hm1 & Hst1 & Hall).
+    eapply spx_bind; [apply process_incoming_message_x; [exact Hx0|exact Hst]|].
+    intros s1 r (Hx1 & Hok1 & Hm1 & Hst1).
     assert (Hacc1 : acc_ok (result_update acc r)) by (apply acc_ok_update; assumption).
     assert (Hx1' : vs_x ti tm (ar_acked_bytes (result_update acc r)) q s1) by exact Hx1.
-    pose proof Hm1 as (M1&M2&M3&M4&M5&M6&M7&M8&M9&M10&M11). vsimpl.
+    pose proof Hm1 as (M1&M2&M3&M4&M5&M6&M7&M8&M9&M10). vsimpl.
     assert (Hef1 : ef strict s1) by (eapply ef_rel; [exact M10|exact Hef]).
-    assert (Hps1 : ps_for (v_last_sent_seq_nr s1) (v_segs s1)) by (rewrite M7; apply Hall; exact Hps).
     assert (Hrel : loop_rel s s1) by (apply (msg_loop_rel (set_inbox s rest)); exact Hm1).
     destruct (_ || _).
     + cbn [spx]. unfold rl_post. cbn [fst]. auto.
     + eapply spx_weaken; [apply IH| |auto].
       * rewrite M2. cbn [length] in Hlen. lia.
       * exact Hacc1.
-      * split; [exact Hx1'|]. split; [exact Hef1|]. split; [exact Hst1|]. split; [exact Hps1|].
-        intros Hc c Hfc Hsub. rewrite M3 in Hc. rewrite M7 in Hsub. apply Hall.
-        apply Hfp; [exact Hc| |exact Hsub].
-        destruct M11 as [M11|M11]; [congruence|]. unfold fin_cand in M11, Hfc |- *. vsimpl. congruence.
-      * intros s' res (A1 & A2 & A3 & A4 & A5). unfold rl_post. repeat (split; [assumption|]).
+      * split; [exact Hx1'|]. split; [exact Hef1|exact Hst1].
+      * intros s' res (A1 & A2 & A3 & A5). unfold rl_post. repeat (split; [assumption|]).
         eapply loop_rel_trans; eauto.
 Qed.
 
 (* ------------------------------------------------------------------ process_all_incoming_messages *)
-Lemma seq_sub_pred u : 0 <= u < M16 -> seq_sub (wsub16 u 1) u = -1.
-Proof.
-  intro Hu. unfold seq_sub. apply offset_true_distance_pair; unfold WRAP_TOLERANCE; try lia.
-  - apply wsub16_range.
-  - unfold wsub16, M16 in *. lia.
-Qed.
-
-(* calc_pipe's argument lies inside the table *)
-Definition pipe_arg_in (s : vsock) : Prop :=
-  Z.max (seq_sub (v_last_sent_seq_nr s) (ss_snd_una (v_segs s))) 0 <= len_z (ss_segs (v_segs s)).
-
-Lemma ps_pipe_arg (s : vsock) :
-  seg_inv (v_segs s) -> ps_for (v_last_sent_seq_nr s) (v_segs s) -> pipe_arg_in s.
-Proof.
-  intros (_ & _ & _ & _ & Hu) H. unfold pipe_arg_in. specialize (H 0). unfold len_z in *.
-  replace (wadd16 (ss_snd_una (v_segs s)) (0 mod M16)) with (ss_snd_una (v_segs s)) in H
-    by (unfold wadd16, M16 in *; rewrite Z.mod_0_l by lia; rewrite Z.add_0_r, Z.mod_small; lia).
-  lia.
-Qed.
-
 Lemma acked_counts_x ti tm p q (s : vsock) :
-  vs_x ti tm p q s -> ef strict s -> pipe_arg_in s ->
+  vs_x ti tm p q s -> ef strict s ->
   vs_x ti tm p q (acked_counts_as_sent s) /\ ef strict (acked_counts_as_sent s) /\
-  pipe_arg_in (acked_counts_as_sent s) /\ loop_rel s (acked_counts_as_sent s).
+  loop_rel s (acked_counts_as_sent s).
 Proof.
-  intros Hx Hef Hp. unfold acked_counts_as_sent. destruct (seq_gt _ _).
-  - split; [exact Hx|]. split; [exact Hef|]. split; [|exact (loop_rel_refl s)].
-    unfold pipe_arg_in. vsimpl.
-    destruct Hx as [Hinv _]. destruct (inv_parts _ _ _ _ Hinv) as (_ & (_ & _ & _ & _ & Hu) & _).
-    rewrite (seq_sub_pred _ Hu). unfold len_z. lia.
-  - split; [exact Hx|]. split; [exact Hef|]. split; [exact Hp|apply loop_rel_refl].
+  intros Hx Hef. unfold acked_counts_as_sent. destruct (seq_gt _ _).
+  - split; [exact Hx|]. split; [exact Hef|exact (loop_rel_refl s)].
+  - split; [exact Hx|]. split; [exact Hef|apply loop_rel_refl].
 Qed.
 
 Lemma pa_tail_x ti tm q (s3 : vsock) :
-  vs_x ti tm 0 q s3 -> ef strict s3 -> pipe_arg_in s3 ->
+  vs_x ti tm 0 q s3 -> ef strict s3 ->
   spx strict
     (match rv_phase (v_recovery s3) with
      | Recovering rc =>
@@ -536,10 +473,10 @@ Lemma pa_tail_x ti tm q (s3 : vsock) :
      end)
     (fun s4 _ => vs_x ti tm 0 q s4 /\ ef strict s4 /\ loop_rel s3 s4) (vs_xe ti tm q).
 Proof.
-  intros Hx Hef Hp.
+  intros Hx Hef.
   destruct (rv_phase (v_recovery s3)) as [rp|d|rc]; try (cbn [spx]; split; [exact Hx|split; [exact Hef|apply loop_rel_refl]]).
   destruct (calc_pipe_some (v_segs s3) (rc_high_rxt rc) (v_last_sent_seq_nr s3)
-              (roundtrip_time (v_rtte s3)) (v_now s3) Hp) as (t' & pp & rcl & E).
+              (roundtrip_time (v_rtte s3)) (v_now s3)) as (t' & pp & rcl & E).
   rewrite E. cbn [spx].
   destruct (calc_pipe_ev _ _ _ _ _ _ _ _ E) as (V1 & V2 & V3 & V4).
   pose proof Hx as [Hinv _]. destruct (inv_parts _ _ _ _ Hinv) as (I1 & I2 & I3 & I4 & I5 & I6 & I7 & I8).
@@ -552,28 +489,26 @@ Qed.
 
 Lemma process_all_x ti tm q (s : vsock) :
   vs_x ti tm 0 q s -> ef strict s -> v_state s <> SynReceived ->
-  ps_for (v_last_sent_seq_nr s) (v_segs s) -> fin_ps s ->
   spx strict (process_all_incoming_messages cci s)
       (fun s' _ => vs_x ti tm 0 q s' /\ ef strict s' /\ loop_rel s s') (vs_xe ti tm q).
 Proof.
-  intros Hx Hef Hst Hps Hfp. unfold process_all_incoming_messages.
+  intros Hx Hef Hst. unfold process_all_incoming_messages.
   eapply spx_bind.
   { apply (recv_loop_x ti tm q).
     - rewrite app_length. cbn [length]. lia.
     - apply acc_ok_default.
-    - split; [exact Hx|]. split; [exact Hef|]. split; [exact Hst|]. split; [exact Hps|exact Hfp]. }
-  intros s1 [r early] (Hx1 & (Hs0 & Hb0 & Hz) & Hef1 & Hps1 & Hrel1). cbn [fst] in *.
+    - split; [exact Hx|]. split; [exact Hef|exact Hst]. }
+  intros s1 [r early] (Hx1 & (Hs0 & Hb0 & Hz) & Hef1 & Hrel1). cbn [fst] in *.
   set (s2 := if (0 <? ar_acked_segments r) || (0 <? ar_newly_sacked_segments r) then _ else s1).
-  assert (H2 : vs_x ti tm (ar_acked_bytes r) q s2 /\ ef strict s2 /\ loop_rel s s2 /\ pipe_arg_in s2).
-  { assert (Hp1 : pipe_arg_in s1) by (apply ps_pipe_arg; [apply (inv_parts _ _ _ _ (proj1 Hx1))|exact Hps1]).
-    unfold s2, restart_remote_inactivity_timer. destruct (_ || _); [|auto].
+  assert (H2 : vs_x ti tm (ar_acked_bytes r) q s2 /\ ef strict s2 /\ loop_rel s s2).
+  { unfold s2, restart_remote_inactivity_timer. destruct (_ || _); [|auto].
     destruct (ss_segs (v_segs (set_rto_retransmissions s1 0))); [destruct (our_fin_if_unacked _)|];
-      (split; [exact Hx1|split; [exact Hef1|split; [exact Hrel1|exact Hp1]]]). }
-  clearbody s2. destruct H2 as (Hx2 & Hef2 & Hrel2 & Hp2).
-  eapply spx_bind with (Q1 := fun s3 (_ : unit) => vs_x ti tm 0 q s3 /\ ef strict s3 /\ loop_rel s s3 /\ pipe_arg_in s3).
+      (split; [exact Hx1|split; [exact Hef1|exact Hrel1]]). }
+  clearbody s2. destruct H2 as (Hx2 & Hef2 & Hrel2).
+  eapply spx_bind with (Q1 := fun s3 (_ : unit) => vs_x ti tm 0 q s3 /\ ef strict s3 /\ loop_rel s s3).
   - destruct (Z.ltb_spec 0 (ar_acked_segments r)) as [Hpos|Hneg].
-    + destruct (acked_counts_x _ _ _ _ _ Hx2 Hef2 Hp2) as (Hx2b & Hef2b & Hp2b & Hrel2b).
-      generalize dependent (acked_counts_as_sent s2). intros s2b Hx2b Hef2b Hp2b Hrel2b.
+    + destruct (acked_counts_x _ _ _ _ _ Hx2 Hef2) as (Hx2b & Hef2b & Hrel2b).
+      generalize dependent (acked_counts_as_sent s2). intros s2b Hx2b Hef2b Hrel2b.
       destruct (truncate_ok ti tm (ar_acked_bytes r) s2b (proj1 Hx2b)) as (tx1 & -> & Hinv3).
       destruct (wake_writer tx1) as [tx2 w] eqn:Ew.
       destruct (wake_writer_fields _ _ _ Ew) as (W1 & W2 & W3 & W4).
@@ -582,12 +517,11 @@ Proof.
       destruct (inv_parts _ _ _ _ Hinv3) as (K1 & K2 & K3 & K4 & K5 & K6 & K7 & K8). vsimpl.
       split; [unfold add_wakes; eapply x_update; [exact Hx3|..]; vsimpl; auto; try lia|].
       split; [unfold ef, emsg_free, add_wakes in *; vsimpl; exact Hef2b|].
-      split; [eapply loop_rel_trans; [exact Hrel2|]; eapply loop_rel_trans; [exact Hrel2b|];
-              unfold loop_rel, ss_mono, add_wakes; vsimpl; repeat (split; [reflexivity|]); lia|].
-      exact Hp2b.
+      eapply loop_rel_trans; [exact Hrel2|]. eapply loop_rel_trans; [exact Hrel2b|].
+      unfold loop_rel, ss_mono, add_wakes; vsimpl; repeat (split; [reflexivity|]); lia.
     + cbn [spx]. assert (Hz0 : ar_acked_bytes r = 0) by (apply Hz; lia). rewrite Hz0 in Hx2. auto.
-  - intros s3 _ (Hx3 & Hef3 & Hrel3 & Hp3).
-    eapply spx_weaken; [exact (pa_tail_x ti tm q s3 Hx3 Hef3 Hp3)| |auto].
+  - intros s3 _ (Hx3 & Hef3 & Hrel3).
+    eapply spx_weaken; [exact (pa_tail_x ti tm q s3 Hx3 Hef3)| |auto].
     intros s4 _ (A1 & A2 & A3). split; [exact A1|]. split; [exact A2|eapply loop_rel_trans; eauto].
 Qed.
 
